@@ -210,16 +210,14 @@ def flag_at_partition_cut(ast):
     return seen_flag
 
 
-ROOTED_TREE_PREFIXES = [("(?s)^([/].*[/]?)", "(?s)^([/](?:.*[/])?)"), ("^([/].*[/]?)", "^([/](?:.*[/])?)")]
-
-
 def patch_rooted_leading_tree(pattern):
     """Term patch for KF-rooted-tree-partial-component: the encoding a rooted leading tree wildcard
-    would have if it matched whole components only. None if the pattern has no such piece."""
-    for old, new in ROOTED_TREE_PREFIXES:
-        if pattern.startswith(old):
-            return new + pattern[len(old):]
-    return None
+    (`[/].*[/]?`, wherever the encoder emitted it: at top level or as the first token of a leading
+    branch) would have if it matched whole components only. None if the pattern has no such piece."""
+    piece = "[/].*[/]?"
+    if piece not in pattern:
+        return None
+    return pattern.replace(piece, "[/](?:.*[/])?")
 
 
 def _sup_class(pos):
